@@ -86,7 +86,16 @@ func faultDoc(t *rapid.T) map[string]any {
 	for i := 0; i < rapid.IntRange(0, 4).Draw(t, "nobjs"); i++ {
 		objs = append(objs, map[string]any{"k": float64(rapid.IntRange(1, 2).Draw(t, "objk"))})
 	}
-	return map[string]any{"t": rows, "u": us, "meta": map[string]any{"ip": "10.0.0.1"}, "dups": dups, "objs": objs}
+	// deep: the rows of t once more, one dimension deeper (FROM over an array of arrays)
+	deep := []any{}
+	for i := 0; i < len(rows); i += 2 {
+		end := i + 2
+		if end > len(rows) {
+			end = len(rows)
+		}
+		deep = append(deep, append([]any{}, rows[i:end]...))
+	}
+	return map[string]any{"t": rows, "u": us, "meta": map[string]any{"ip": "10.0.0.1"}, "dups": dups, "objs": objs, "deep": deep}
 }
 
 // selectorColumns are select-list items written in the selector language
@@ -314,7 +323,7 @@ func genFaultQueryRisky(t *rapid.T, root string, asyncOK, riskyArgs bool) faultQ
 	for attempt := 0; ; attempt++ {
 		b := &fqBuilder{t: t, root: root, asyncOK: asyncOK, riskyArgs: riskyArgs}
 		shape := rapid.SampledFrom([]string{"simple", "derived", "cte", "cte_chain", "group_having", "union", "join", "modifiers", "star", "nested_sub",
-			"cte_union", "derived_with", "join_derived_with", "cte_direct", "join_on_func", "selector_cols", "selector_from", "cte_twice", "derived_in_join", "lazy_cte"}).Draw(t, "shape")
+			"cte_union", "derived_with", "join_derived_with", "cte_direct", "join_on_func", "selector_cols", "selector_from", "cte_twice", "derived_in_join", "lazy_cte", "multi_dim"}).Draw(t, "shape")
 		var q string
 		open := false
 		switch shape {
@@ -403,6 +412,12 @@ func genFaultQueryRisky(t *rapid.T, root string, asyncOK, riskyArgs bool) faultQ
 				q = fmt.Sprintf("SELECT fid(%d, v) AS y FROM `%st[0].n`", s, root)
 			case "distinct_rows":
 				q = fmt.Sprintf("SELECT fid(%d, id) AS y FROM `distinct=>%st`", s, root)
+			}
+		case "multi_dim":
+			// FROM rows that are arrays themselves: every inner array is evaluated on a copy of the query
+			q = b.simpleSelect(root + "deep")
+			if rapid.Bool().Draw(t, "multi_dim_cte") {
+				q = fmt.Sprintf("WITH c AS (%s) SELECT * FROM c", q)
 			}
 		case "nested_sub":
 			s := b.next("nested_subquery_where")
